@@ -277,6 +277,8 @@ def check(ctx):
                     o.fail(P, s.ctx, lp if lp is not None else s.stmt, f'{kind} callbacks must each be called once, in list order, as callback({", ".join(CB_ARGS[kind])})', file=s.mod.path, line=s.line)
                 else:
                     o.witness(('iterate', kind, s.line))
+            elif role[0] == 'alias':
+                pass
             else:
                 o.fail(P, s.ctx, s.stmt, f'unexpected use of the {kind} callback list ({role[0]})', file=s.mod.path, line=s.line)
 
